@@ -42,6 +42,42 @@ class Infra(Exception):
     """Infrastructure failure: exit 2, never a verdict."""
 
 
+class ImplHang(BaseException):
+    """The implementation did not return from one call within the limit (BaseException: a broad
+    `except Exception` inside the implementation cannot swallow it)."""
+
+
+class cpu_limit(object):
+    """`with cpu_limit(seconds): call_the_implementation()` - raises ImplHang when the call uses more
+    than `seconds` of CPU time (ITIMER_VIRTUAL: independent of the check's wall-clock budget alarm and of
+    machine load)."""
+
+    def __init__(self, seconds):
+        self.seconds = seconds
+
+    def _fire(self, sig, frame):
+        where = ""
+        f = frame
+        while f is not None:
+            if "/rig/" in f.f_code.co_filename:
+                where = "%s:%d" % (f.f_code.co_name, f.f_lineno)
+                break
+            f = f.f_back
+        raise ImplHang("still running after %g s of CPU time%s" % (self.seconds, " in " + where if where else ""))
+
+    def __enter__(self):
+        import signal
+        self.old = signal.signal(signal.SIGVTALRM, self._fire)
+        signal.setitimer(signal.ITIMER_VIRTUAL, self.seconds)
+        return self
+
+    def __exit__(self, *a):
+        import signal
+        signal.setitimer(signal.ITIMER_VIRTUAL, 0)
+        signal.signal(signal.SIGVTALRM, self.old)
+        return False
+
+
 def sh(cmd, timeout=None, cwd=None, env=None, inp=None):
     p = subprocess.run(cmd, shell=isinstance(cmd, str), cwd=cwd, env=env,
                        input=inp, stdout=subprocess.PIPE,
